@@ -46,6 +46,10 @@ def run(ctx):
                 "progress), a silent client gets ERROR+EOF no later than first unanswered PING + pong_timeout + slack (1 s + "
                 "measured harness lag; a run whose lag exceeds 0.5 s is inconclusive), clean-up afterwards (snapshot, WHOWAS); "
                 "distinct = (ping, pong, behaviour, dropped?)" % (configs,))
+    # "any other traffic on the connection in the meantime": a client with megabytes of messages waiting for it still
+    # gets its own PING answered before the backlog is through (workload W10 of the storm engine)
+    from . import common
+    common.run_storm_kinds(ctx, res, "c17:", ["backlog"], 1, 4, jobs=2)
     res.floor("clients_observed", res.evaluations, 17 * len(configs) - 17 * res.inconclusive)
     res.floor("events_observed", res.extra.get("events_observed", 0), 100)
     res.assumptions = ["minute-scale timeouts (the defaults 120/20 s) run the same code with other constants and are not exercised",
